@@ -7,7 +7,7 @@ C.bootstrap()
 N = int(sys.argv[1]); seed0 = int(sys.argv[2]) if len(sys.argv) > 2 else 0
 descs = []
 for fam in netgen.FAMILIES:
-    if fam in ("cpu", "shape"):
+    if fam in ("cpu",):
         continue
     for i in range(N):
         r = random.Random(hash((fam, i, seed0)) & 0xFFFFFF)
